@@ -68,6 +68,7 @@ def leaves(names=("a", "b"), full=True):
         for f in (IMPORT_FORMS if full else ["from m import n"]):
             out.append(("import", n, f))
     out.append(("chain",))
+    out.append(("string",))
     if full:
         for f in ALL_FORMS:
             out.append(("all", f))
@@ -80,8 +81,8 @@ def leaves(names=("a", "b"), full=True):
 
 
 ARM_LEAVES = [("def", "a", "plain"), ("class", "a", "attr"), ("assign", "a", "assign"), ("assign", "a", "annassign"), ("import", "a", "from m import n"),
-              ("assign", "b", "assign"), ("def", "b", "doc"), ("unsupported", "del a"), ("chain",)]
-ARM_LEAVES_SMALL = [("def", "a", "plain"), ("assign", "a", "assign"), ("assign", "b", "assign")]
+              ("assign", "b", "assign"), ("def", "b", "doc"), ("unsupported", "del a"), ("chain",), ("string",)]
+ARM_LEAVES_SMALL = [("def", "a", "plain"), ("assign", "a", "assign"), ("assign", "b", "assign"), ("string",)]
 
 
 def blocks(full=True):
@@ -97,7 +98,7 @@ def blocks(full=True):
 CLASS_LEVEL = (
     [("def", n, v) for n in ("a", "b") for v in CLASS_DEF_VARIANTS]
     + [("assign", n, v) for n in ("a", "b") for v in ASSIGN_VARIANTS]
-    + [("assign", "a", "classvar"), ("class", "a", "attr"), ("import", "a", "from m import n"), ("chain",)]
+    + [("assign", "a", "classvar"), ("class", "a", "attr"), ("import", "a", "from m import n"), ("chain",), ("string",)]
     + [("block", k, tuple((a,) for a in arms)) for k in ("if", "tc", "tc-nested-if", "try-except") for arms in itertools.product(ARM_LEAVES_SMALL, repeat=ARMS[k])]
     + [("def", "__init__", "init"), ("def", "__init__", "init-cond"), ("def", "__init__", "init-ann")]
 )
@@ -261,6 +262,10 @@ def render_stmt(r: R, s, ind, ctx, scope):
         for n in ("a", "b"):
             ev.append({"op": "bind", "name": n, "kind": "attribute", "lineno": l1, "endlineno": l2, "cond": ctx["cond"], "guard": ctx["guard"],
                        "labels": {"module-attribute"} if scope == "module" else {"class-attribute", "instance-attribute"}, "doc": None, "value": "1"})
+    elif k == "string":
+        # a bare string statement: the docstring of the assignment written immediately above it IN THE SAME BLOCK (render_seq), noise anywhere else
+        l1, l2 = r.emit('"""A string statement."""', ind)
+        ev.append({"op": "noise", "string": ("A string statement.", l1, l2)})
     elif k == "import":
         _, n, form = s
         text = form.replace("from m ", "from mm ").replace(" n", f" {n}")
@@ -280,9 +285,7 @@ def render_stmt(r: R, s, ind, ctx, scope):
         _, kind, arms = s
 
         def arm(stmts, ind2, cond, guard):
-            c = {"cond": cond, "guard": guard}
-            for st in stmts:
-                ev.extend(render_stmt(r, st, ind2, c, scope))
+            ev.extend(render_seq(r, stmts, ind2, {"cond": cond, "guard": guard}, scope))
 
         g = ctx["guard"]
         if kind == "if":
@@ -332,6 +335,26 @@ def render_stmt(r: R, s, ind, ctx, scope):
     return ev
 
 
+def render_seq(r: R, stmts, ind, ctx, scope):
+    """One statement list (a body or an arm): statements in order; a string statement directly after an assignment documents it."""
+    ev = []
+    prev_binds = None
+    for st in stmts:
+        evs = render_stmt(r, st, ind, ctx, scope)
+        if st[0] == "string" and prev_binds:
+            for b in prev_binds:
+                if not b.get("doc"):
+                    b["doc"] = evs[0]["string"]
+        if st[0] in ("assign", "chain"):
+            prev_binds = [e for e in evs if e.get("op") == "bind" and e["kind"] == "attribute" and not e.get("is_def")]
+        elif st[0] == "all" and "+=" not in st[1]:
+            prev_binds = [e for e in evs if e.get("op") == "all"]  # `__all__ = [...]` is an attribute assignment as well
+        else:
+            prev_binds = None
+        ev.extend(evs)
+    return ev
+
+
 HEAD = "import functools, typing, some, dataclasses\nfrom typing import TYPE_CHECKING, ClassVar\n"
 
 
@@ -341,15 +364,11 @@ def build(case):
     r.emit(HEAD.rstrip("\n"), 0)
     ctx = {"cond": None, "guard": False}
     if case[0] == "M":
-        ev = []
-        for s in case[1]:
-            ev.extend(render_stmt(r, s, 0, ctx, "module"))
+        ev = render_seq(r, case[1], 0, ctx, "module")
         return "\n".join(r.lines) + "\n", ev, "m", "module"
     if case[0] == "C":
         first, _ = r.emit("class K:", 0)
-        ev = []
-        for s in case[1]:
-            ev.extend(render_stmt(r, s, 1, ctx, "class"))
+        ev = render_seq(r, case[1], 1, ctx, "class")
         return "\n".join(r.lines) + "\n", ev, "m.K", "class"
     if case[0] == "V":
         _, n, parent, allmode, how = case
@@ -393,7 +412,7 @@ def interpret(events):
                 if "__all__" in members and e["cond"] in ("if", "except"):
                     continue
                 exports = list(e["names"])
-                members["__all__"] = {"op": "bind", "name": "__all__", "kind": "attribute", "lineno": e["lineno"], "endlineno": e["lineno"], "guard": e["guard"], "labels": {"module-attribute"}, "doc": None, "is_all": True}
+                members["__all__"] = {"op": "bind", "name": "__all__", "kind": "attribute", "lineno": e["lineno"], "endlineno": e["lineno"], "guard": e["guard"], "labels": {"module-attribute"}, "doc": e.get("doc"), "is_all": True}
             continue
         n = e["name"]
         if e["kind"] == "attribute" and not e.get("is_def") and n in members and e["cond"] in ("if", "except"):
@@ -574,6 +593,8 @@ def judge_scope(acc, case, src, lines, obj, events, path, scope_kind, ctxkey):
                 acc.violation(f"labels/{kind}", f"{path}.{n}: labels {sorted(m.labels)}, decorators imply {sorted(want_labels)}", where, None, size=len(src))
         elif not want_labels <= set(m.labels):
             acc.violation(f"labels/attribute/{scope_kind}", f"{path}.{n}: labels {sorted(m.labels)} lack {sorted(want_labels - set(m.labels))}", where, None, size=len(src))
+        elif set(m.labels) & {"cached", "staticmethod", "classmethod", "property", "async", "dataclass", "abstractmethod", "writable", "deletable"}:
+            acc.violation(f"labels/attribute-has-decorator-labels/{scope_kind}", f"{path}.{n} is a plain assignment but carries {sorted(m.labels)}", where, None, size=len(src))
         doc = e.get("doc")
         if doc:
             if m.docstring is None:
